@@ -157,8 +157,93 @@ func vImageSegments(fs *vos.MemFS, tmpl string) (ids []int, files map[int]map[st
 	return
 }
 
-// vCrashCheck opens the image with fresh templates and evaluates the C10 oracle.
+// vCrashCheck opens the image with fresh templates and evaluates the C10 oracle; for crash
+// points at operation boundaries (and one mid-write point per write) inside the in-flight
+// operation it then explores a SECOND crash: the recovered store adds a document and
+// flushes, and the process dies again at every operation boundary (and in the middle of
+// every write) of that flush - directories with two incomplete segments.
 func vCrashCheck(c *vCtx, cfg vCrashCfg, h *vCrashHistory, p vCrashPoint, prop string) {
+	sec := vCrashCheck1(c, cfg, h, p, prop)
+	if sec == nil {
+		return
+	}
+	scfg := vStoreCfg{Mem: 2, Thr: 1, Comp: 5, Tmpl: cfg.Tmpl, Vec: "flat"}
+	for i := 0; i <= len(sec.log); i++ {
+		torns := []int{-1}
+		if i < len(sec.log) && sec.log[i].Kind == "write" && len(sec.log[i].Data) > 1 {
+			torns = append(torns, len(sec.log[i].Data)/2)
+		}
+		for _, t := range torns {
+			img := sec.snap.Snapshot()
+			for j := 0; j < i; j++ {
+				img.ApplyOp(sec.log[j], -1)
+			}
+			if t >= 0 {
+				img.ApplyOp(sec.log[i], t)
+			}
+			img.RemoveRaw(vStoreDir + "/LOCK")
+			hist := append(append([]string{}, sec.hist...), fmt.Sprintf("recovered; AddWithID 50; Rotate; second crash after %d of %d file-system operations of the next flush, %d bytes of the next write", i, len(sec.log), t))
+			c.Evaluations++
+			c.Traces++
+			c.Extra["second_crash_images"]++
+			env := vStoreBegin(nil, img)
+			st, err := env.open(scfg.config())
+			if env.dead != "" || err != nil {
+				c.Violation("reopen-failed", "second-crash", sec.cfgS, hist, fmt.Sprint(err, env.dead))
+				env.end()
+				continue
+			}
+			for _, q := range vStoreQueries(cfg.Tmpl) {
+				var got map[uint32]float64
+				var serr error
+				env.do(func() { got, serr = vStoreSearch(st, q) })
+				if env.dead != "" {
+					c.Violation("search-aborted", "second-crash:"+vDeadCause(env.dead), sec.cfgS, hist, env.dead)
+					break
+				}
+				if serr != nil {
+					c.Violation("search-error-after-crash", "second-crash", sec.cfgS, hist, fmt.Sprintf("query %d: %v", q, serr))
+					continue
+				}
+				for id := range got {
+					if _, ok := h.ever[id]; !ok && id != 50 {
+						c.Violation("returned-never-added-id", "second-crash", sec.cfgS, hist, fmt.Sprintf("query %d returned %d", q, id))
+					}
+				}
+				for _, id := range h.durable {
+					if !vStoreMatches(vStoreDocs[h.ever[id]], q, cfg.Tmpl) {
+						continue
+					}
+					if _, ok := got[id]; !ok {
+						cause := ""
+						if sec.loadable >= 2 {
+							cause = "several-segments-decoded-into-shared-templates"
+						}
+						if cfg.Compact || cfg.InFlight == "compact" {
+							cause += "+compaction"
+						}
+						c.Violation("durable-doc-lost-after-crash", cause, sec.cfgS, hist, fmt.Sprintf("query %d returned %v; document %d was made durable by a completed flush", q, vIDSet(got), id))
+					}
+				}
+			}
+			if env.dead == "" {
+				env.do(func() { st.Close() })
+			}
+			env.end()
+			c.Nontrivial(fmt.Sprintf("%s|%d|%d|second|%d|%d", sec.cfgS, p.ops, p.torn, i, t))
+		}
+	}
+}
+
+type vSecondCrash struct {
+	cfgS     string
+	hist     []string
+	snap     *vos.MemFS
+	log      []vos.Op
+	loadable int
+}
+
+func vCrashCheck1(c *vCtx, cfg vCrashCfg, h *vCrashHistory, p vCrashPoint, prop string) (sec *vSecondCrash) {
 	cfgS := cfg.String()
 	hist := []string{fmt.Sprintf("crash after %d of %d file-system operations of the in-flight %s, %d bytes of the next write", p.ops, len(h.log), cfg.InFlight, p.torn)}
 	if p.ops < len(h.log) {
@@ -290,6 +375,7 @@ func vCrashCheck(c *vCtx, cfg vCrashCfg, h *vCrashHistory, p vCrashPoint, prop s
 	}
 	// a flush on the reopened store must use an identifier above every identifier in the image
 	before := len(env.fs.Log)
+	snap2 := env.fs.Snapshot()
 	env.do(func() {
 		st.AddWithID(50, []float32{2, 2}, "delta", map[string]interface{}{"s": "y"})
 		st.memtableQueue.Rotate()
@@ -314,6 +400,10 @@ func vCrashCheck(c *vCtx, cfg vCrashCfg, h *vCrashHistory, p vCrashPoint, prop s
 	}
 	if created == 0 {
 		c.Violation("flush-after-crash-wrote-nothing", "", cfgS, hist, "Add; Rotate; Flush on the reopened store created no segment file")
+	}
+	midWrite := p.torn >= 0 && p.ops < len(h.log) && p.torn == len(h.log[p.ops].Data)/2
+	if torn && (p.torn < 0 || midWrite) && cfg.InFlight != "compact" {
+		sec = &vSecondCrash{cfgS: cfgS, hist: hist, snap: snap2, log: append([]vos.Op(nil), env.fs.Log[before:]...), loadable: loadable + 1}
 	}
 	if torn {
 		c.Nontrivial(fmt.Sprintf("%s|%d|%d", cfgS, p.ops, p.torn))
@@ -348,6 +438,7 @@ func vCrashCheck(c *vCtx, cfg vCrashCfg, h *vCrashHistory, p vCrashPoint, prop s
 		c.Violation("doc-flushed-after-recovery-lost-on-next-open", cause, cfgS, hist, fmt.Sprintf("document 50 was added, flushed and closed after the recovery; the next open returns %v; segments in the crash image %v", vIDSet(got), segFiles))
 	}
 	env.do(func() { st2.Close() })
+	return sec
 }
 
 func vBoolInt(b bool) int {
